@@ -46,3 +46,9 @@ Ltac inv_res1 :=
   | H : cdiv _ _ = Ok _ |- _ => apply cdiv_ok in H; destruct H as [? ?]; subst
   end.
 Ltac inv_res := repeat inv_res1.
+
+(* 2^256-1 and 2^512-1 are kept opaque in proofs (lia would otherwise try to normalise the powers) *)
+Lemma U128_lt_U256 : U128_MAX < U256_MAX. Proof. vm_compute. reflexivity. Qed.
+Lemma U256_lt_U512 : U256_MAX < U512_MAX. Proof. vm_compute. reflexivity. Qed.
+Lemma U64_lt_U128 : U64_MAX < U128_MAX. Proof. vm_compute. reflexivity. Qed.
+Global Opaque U256_MAX U512_MAX.
